@@ -144,6 +144,10 @@ def approximation2endo(op, nsamples):
     for _ in range(nsamples):
         sc.add(op.draw_sample())
     approx = sc.var
+    if not isinstance(approx, MultiField):
+        foo = approx.asnumpy_rw()
+        foo[foo == 0] = 1
+        return makeField(approx.domain, foo)
     dct = approx.to_dict()
     for kk in dct:
         foo = dct[kk].asnumpy_rw()
